@@ -29,7 +29,7 @@ func init() {
 		Shards: func(tier string) int { return nShards },
 		Run:    run,
 		Replay: replay,
-		Rule: "every sequence of <= k fragments (after $) over the fragment alphabet (3 child keys, 12 indexes, wildcard, descent, 7 unions, the start x end x step slice product, 5 filters) x every document of the corpus (all trees of <= 3 nodes + 6 larger hand-made documents); " +
+		Rule: "every sequence of <= k fragments (after $) over the fragment alphabet (3 child keys, 12 indexes, wildcard, descent, 7 unions, the start x end x step slice product, 7 filters) x every document of the corpus (all trees of <= 3 nodes + 8 larger hand-made documents); " +
 			"distinct_nontrivial = (path, document) pairs for which the reference selects at least one element",
 		Assumptions: []string{"pathref is the specification; slices with |step|>1 starting outside the array and the default bounds of negative-step slices accept every reading (pathref.Variants)",
 			"paths ending in a bare descent only get the no-panic / determinism oracle; results involving a descent or a multi-key map are compared as multisets",
@@ -38,7 +38,7 @@ func init() {
 			if tier == "thorough" {
 				return "wide alphabet (421 fragments) k<=2 on trees <=4 nodes; thinned alphabet (124 fragments) k<=3 on trees <=3 nodes"
 			}
-			return "wide alphabet (421 fragments) k<=2 on trees <=3 nodes + 6 larger documents"
+			return "wide alphabet (421 fragments) k<=2 on trees <=3 nodes + 8 larger documents"
 		},
 	})
 }
